@@ -1702,7 +1702,9 @@ class Plate:
 
         Returns: total volume stored in slice in uL.
         """
-        return self.get_volumes(unit=unit).sum()
+        # the total is rounded for display, not the sum of the wells' rounded volumes (96 x 2.5 uL is 240 uL, not 192)
+        precision = config.precisions[unit] if unit in config.precisions else config.precisions['default']
+        return round(float(sum(well.get_volume(unit) for well in self.wells.flatten())), precision)
 
     @staticmethod
     def transfer(source: Container | Plate | PlateSlicer, destination: Plate | PlateSlicer, quantity: str) \
